@@ -473,3 +473,14 @@ def run(repo: Repo, rep: Report, tier: str) -> None:
     # local assignment: a member of an anonymous structure assigned on the parent lands in that member
     accessor_fold_rule(repo, rep, "C17.R20")
     late_binding_rule(repo, rep, "C17.R21")
+    from .c04 import struct_rw_fold_rule
+
+    # assigning a field changes exactly the bytes of that field in the dump: every field is written at its own offset, gaps as zeros
+    struct_rw_fold_rule(repo, rep, "C17.R22", 3 if tier == "thorough" else 2)
+    from .c11 import proxy_fold_rule
+    from .c14 import replicate_rule
+
+    # the entries of a default array are distinct objects: assigning through one entry changes the bytes of that entry only
+    replicate_rule(repo, rep, "C17.R23")
+    # local assignment through a structure nested in a union: the proxy names the top-level member at every depth
+    proxy_fold_rule(repo, rep, "C17.R24")
